@@ -4,7 +4,6 @@ import (
 	"go/ast"
 	"go/token"
 	"go/types"
-	"sort"
 	"strings"
 
 	"verif/internal/core"
@@ -13,6 +12,7 @@ import (
 
 // c13DivEntry is one reviewed divisor (function + divisor role).
 type c13DivEntry struct {
+	max    int
 	class  c13Class
 	reason string
 	fields []c13Field
@@ -24,30 +24,31 @@ const (
 	c13RL = "pkg/util/ratelimiter"
 )
 
+// The table is keyed by what is divided by (kind + fully qualified role), not by the function
+// the division stands in: renaming or splitting that function does not lose the review. max is
+// the number of reviewed sites with that operand; more sites than that are unreviewed.
 var c13DivTable = map[string]c13DivEntry{
-	c13CB + ".(CountBasedWindow).FailureRate|divisor CountBasedWindow.total":       {reason: "a result is pushed (total >= 1) before any rate is computed", check: c13CheckPushBeforeRate},
-	c13CB + ".(CountBasedWindow).SlowRate|divisor CountBasedWindow.total":          {reason: "a result is pushed (total >= 1) before any rate is computed", check: c13CheckPushBeforeRate},
-	c13CB + ".(TimeBasedWindow).FailureRate|divisor TimeBasedWindow.total":         {reason: "a result is pushed (total >= 1) before any rate is computed", check: c13CheckPushBeforeRate},
-	c13CB + ".(TimeBasedWindow).SlowRate|divisor TimeBasedWindow.total":            {reason: "a result is pushed (total >= 1) before any rate is computed", check: c13CheckPushBeforeRate},
-	c13CB + ".(TimeBasedWindow).Push|divisor len(TimeBasedWindow.bucket)":          {reason: "the bucket slice has slidingWindowSize elements, schema minimum=1", check: c13CheckWindowSizeMin},
-	c13CB + ".(TimeBasedWindow).evict|divisor len(TimeBasedWindow.bucket)":         {reason: "the bucket slice has slidingWindowSize elements, schema minimum=1", check: c13CheckWindowSizeMin},
-	"pkg/util/fasttime.formatFractional|divisor powersOf10[]":                      {reason: "constant table of powers of ten", check: c13CheckPowersOf10},
-	"pkg/util/sampler.(DurationSampler).Update|divisor DurationSegment.resolution": {reason: "segments is a constant table with non-zero resolutions", check: c13CheckSegments},
-	c13RL + ".(RateLimiter).acquirePermission|divisor Policy.LimitForPeriod":       {reason: "RateLimiter filter: schema minimum=1 and 0 is replaced by 50 in createRateLimiter; MQTTProxy creates a limiter only for rates > 0", check: c13CheckLimitForPeriod},
-	c13RL + ".(RateLimiter).acquirePermission|divisor Policy.LimitRefreshPeriod": {class: c13Defect,
-		reason: "RateLimiter policy `limitRefreshPeriod: 0s` passes validation (format=duration only requires time.ParseDuration to succeed); createRateLimiter stores 0 and the first request panics with an integer divide by zero in acquirePermission",
+	"divisor circuitbreaker.CountBasedWindow.total":      {max: 2, reason: "a result is pushed (total >= 1) before any rate is computed", check: c13CheckPushBeforeRate},
+	"divisor circuitbreaker.TimeBasedWindow.total":       {max: 2, reason: "a result is pushed (total >= 1) before any rate is computed", check: c13CheckPushBeforeRate},
+	"divisor len(circuitbreaker.TimeBasedWindow.bucket)": {max: 2, reason: "the bucket slice has slidingWindowSize elements, schema minimum=1", check: c13CheckWindowSizeMin},
+	"divisor fasttime.powersOf10[]":                      {max: 1, reason: "constant table of powers of ten", check: c13CheckPowersOf10},
+	"divisor sampler.DurationSegment.resolution":         {max: 1, reason: "segments is a constant table with non-zero resolutions", check: c13CheckSegments},
+	"divisor ratelimiter.Policy.LimitForPeriod":          {max: 1, reason: "RateLimiter filter: schema minimum=1 and 0 is replaced by 50 when the limiter is created; MQTTProxy creates a limiter only for rates > 0", check: c13CheckLimitForPeriod},
+	"divisor ratelimiter.Policy.LimitRefreshPeriod": {max: 2, class: c13Defect,
+		reason: "RateLimiter policy `limitRefreshPeriod: 0s` passes validation (format=duration only requires time.ParseDuration to succeed); the limiter is created with period 0 and the first request panics with an integer divide by zero",
 		fields: []c13Field{{"pkg/filters/ratelimiter", "Policy", "LimitRefreshPeriod"}}},
-	c13RL + ".(MultiRateLimiter).AcquirePermission|divisor MultiPolicy.LimitRefreshPeriod": {reason: "only MQTTProxy builds a MultiPolicy, with refresh = timePeriod seconds and timePeriod forced >= 1 in newLimiter"},
-	c13RL + ".(MultiRateLimiter).AcquirePermission|divisor MultiPolicy.LimitForPeriod[]":   {reason: "only MQTTProxy builds a MultiPolicy, and only when both rates are > 0 (newLimiter)"},
-	"pkg/resilience.(RetryPolicy).Wrap|Intn argument RetryPolicy.RandomizationFactor":      {reason: "delta = base*randomizationFactor >= 0: factor has schema minimum=0 and CreateWrapper forces waitDuration > 0, so the argument is >= 1", check: c13CheckRetryFactor},
-	c13Pool + ".(WeightedRandomLoadBalancer).ChooseServer|Intn argument WeightedRandomLoadBalancer.totalWeight": {class: c13Defect,
+	"divisor ratelimiter.MultiPolicy.LimitRefreshPeriod":       {max: 2, reason: "only MQTTProxy builds a MultiPolicy, with refresh = timePeriod seconds and timePeriod forced >= 1 in newLimiter"},
+	"divisor ratelimiter.MultiPolicy.LimitForPeriod[]":         {max: 1, reason: "only MQTTProxy builds a MultiPolicy, and only when both rates are > 0 (newLimiter)"},
+	"Intn argument resilience.RetryPolicy.RandomizationFactor": {max: 1, reason: "delta = base*randomizationFactor >= 0: factor has schema minimum=0 and CreateWrapper forces waitDuration > 0, so the argument is >= 1", check: c13CheckRetryFactor},
+	"Intn argument proxy.WeightedRandomLoadBalancer.totalWeight": {max: 1, class: c13Defect,
 		reason: "loadBalance.policy weightedRandom with all server weights 0 (or omitted: weight is omitempty,minimum=0 and ServerPoolSpec.Validate accepts 'no server has a weight') gives totalWeight = 0 and rand.Intn(0) panics on the first request",
 		fields: nil},
 }
 
 // c13DivSite is one division / modulus / Intn argument.
 type c13DivSite struct {
-	at      ast.Node // the binary expression / assignment / call
+	node    *c13Node // the function the operand is judged in (the caller, for a parameter)
+	at      ast.Node // the binary expression / assignment / call (the call site, for a parameter)
 	divisor ast.Expr
 	intn    bool
 }
@@ -55,44 +56,45 @@ type c13DivSite struct {
 func c13Divisors(c *core.Ctx, g *c13Graph, sf *c13SpecFields) {
 	type group struct {
 		node  *c13Node
-		role  string
-		intn  bool
+		key   string
 		sites []c13DivSite
 	}
 	groups := map[string]*group{}
-	var order []string
+	perKey := map[string]int{}
 	nSites := 0
 	for _, n := range g.reachedFuncs() {
-		for _, s := range c13DivSites(n) {
+		for _, s0 := range c13DivSites(n) {
 			nSites++
-			role := c13DivRole(n, sf, s.divisor)
-			kind := "divisor "
-			if s.intn {
-				kind = "Intn argument "
+			s0.node = n
+			for _, s := range c13EffectiveSites(g, s0, 0) {
+				m := s.node
+				kind := "divisor "
+				if s.intn {
+					kind = "Intn argument "
+				}
+				role, full := c13DivRole(m, sf, s.divisor, false), c13DivRole(m, sf, s.divisor, true)
+				cons := g.owner(m).name + "|" + kind + role
+				gr := groups[cons]
+				if gr == nil {
+					gr = &group{node: m, key: kind + full}
+					groups[cons] = gr
+				}
+				gr.sites = append(gr.sites, s)
 			}
-			cons := n.name + "|" + kind + role
-			gr := groups[cons]
-			if gr == nil {
-				gr = &group{node: n, role: role, intn: s.intn}
-				groups[cons] = gr
-				order = append(order, cons)
-			}
-			gr.sites = append(gr.sites, s)
 		}
 	}
-	sort.Strings(order)
-	for _, cons := range order {
+	for _, cons := range sortedKeys(groups) {
 		gr := groups[cons]
 		n := gr.node
 		at := gr.sites[0].at
 		// 1. path-sensitive proof inside the function
-		proved := n.decl != nil
+		proved := true
 		var bad *flow.State
 		for _, s := range gr.sites {
 			if !proved {
 				break
 			}
-			ok, w := c13ProveNonZero(c, n, s)
+			ok, w := c13ProveNonZero(c, s.node, s)
 			if !ok {
 				proved = false
 				bad = w
@@ -103,16 +105,21 @@ func c13Divisors(c *core.Ctx, g *c13Graph, sf *c13SpecFields) {
 			continue
 		}
 		// 2. spec field with schema minimum >= 1
-		if v := c13FieldOf(n, c13StripConv(n, gr.sites[0].divisor)); v != nil && sf.isSpec(v) && sf.schemaMinAtLeast(v, 1) && len(gr.sites) == 1 {
+		if v := c13FieldOf(n, c13Core(n, gr.sites[0].divisor)); v != nil && sf.isSpec(v) && sf.schemaMinAtLeast(v, 1) && len(gr.sites) == 1 {
 			c.Discharge("R-C13-3", cons, pos(c, at), "spec field "+sf.name(v)+" has schema minimum >= 1")
 			continue
 		}
-		// 3. reviewed table
-		e, ok := c13DivTable[cons]
+		// 3. reviewed table (by operand)
+		e, ok := c13DivTable[gr.key]
+		perKey[gr.key] += len(gr.sites)
 		switch {
 		case !ok:
 			c.Violate("R-C13-3", cons, pos(c, at),
-				sprintf("integer division / modulus / rand.Intn reachable from %s whose operand is neither proven non-zero on all paths, nor a spec field with schema minimum >= 1, nor reviewed: a zero operand panics at run time", n.root),
+				sprintf("integer division / modulus / rand.Intn reachable from %s whose operand (%s) is neither proven non-zero on all paths, nor a spec field with schema minimum >= 1, nor reviewed: a zero operand panics at run time", n.root, gr.key),
+				append(witness(bad), n.chain()...)...)
+		case perKey[gr.key] > e.max:
+			c.Violate("R-C13-3", cons, pos(c, at),
+				sprintf("%d sites use the operand %s, only %d were reviewed (%s): a new division / modulus / rand.Intn reachable from %s without a dominating non-zero test", perKey[gr.key], gr.key, e.max, e.reason, n.root),
 				append(witness(bad), n.chain()...)...)
 		case e.class == c13Defect:
 			var missing []string
@@ -134,6 +141,83 @@ func c13Divisors(c *core.Ctx, g *c13Graph, sf *c13SpecFields) {
 		}
 	}
 	c.RequireCount("R-C13-3", "division / modulus / Intn sites with a non-constant operand", nSites, 18)
+}
+
+// c13ParamIndex: the identifier is a parameter of n's declaration that the body never assigns.
+func c13ParamIndex(n *c13Node, id *ast.Ident) int {
+	if n.decl == nil {
+		return -1
+	}
+	info := n.pkg.TypesInfo
+	obj := info.Uses[id]
+	idx, found := 0, -1
+	for _, p := range n.decl.Type.Params.List {
+		for _, nm := range p.Names {
+			if info.Defs[nm] == obj && obj != nil {
+				found = idx
+			}
+			idx++
+		}
+		if len(p.Names) == 0 {
+			idx++
+		}
+	}
+	if found < 0 {
+		return -1
+	}
+	assigned := false
+	ast.Inspect(n.body, func(x ast.Node) bool {
+		switch st := x.(type) {
+		case *ast.AssignStmt:
+			for _, l := range st.Lhs {
+				if lid, ok := ast.Unparen(l).(*ast.Ident); ok && info.Uses[lid] == obj {
+					assigned = true
+				}
+			}
+		case *ast.IncDecStmt:
+			if lid, ok := ast.Unparen(st.X).(*ast.Ident); ok && info.Uses[lid] == obj {
+				assigned = true
+			}
+		case *ast.UnaryExpr:
+			if lid, ok := ast.Unparen(st.X).(*ast.Ident); ok && st.Op == token.AND && info.Uses[lid] == obj {
+				assigned = true
+			}
+		}
+		return true
+	})
+	if assigned {
+		return -1
+	}
+	return found
+}
+
+// c13EffectiveSites: an operand that is a parameter of an (unexported or not) function is judged
+// at the call sites of that function, with the argument as the operand (two levels).
+func c13EffectiveSites(g *c13Graph, s c13DivSite, depth int) []c13DivSite {
+	n := s.node
+	id, ok := c13Core(n, s.divisor).(*ast.Ident)
+	if !ok || depth >= 2 {
+		return []c13DivSite{s}
+	}
+	pi := c13ParamIndex(n, id)
+	if pi < 0 {
+		return []c13DivSite{s}
+	}
+	sig, _ := n.obj.Type().(*types.Signature)
+	if sig == nil || sig.Variadic() {
+		return []c13DivSite{s}
+	}
+	var out []c13DivSite
+	for _, cs := range g.callSites(n) {
+		if len(cs.call.Args) <= pi {
+			return []c13DivSite{s}
+		}
+		out = append(out, c13EffectiveSites(g, c13DivSite{node: cs.caller, at: cs.call, divisor: cs.call.Args[pi], intn: s.intn}, depth+1)...)
+	}
+	if len(out) == 0 {
+		return []c13DivSite{s}
+	}
+	return out
 }
 
 func c13IsInteger(info *types.Info, e ast.Expr) bool {
@@ -309,23 +393,29 @@ func c13Core(n *c13Node, e ast.Expr) ast.Expr {
 
 // c13DivRole names a divisor by the objects it reads (struct fields by declaring type, package
 // variables by name), never by local variable names.
-func c13DivRole(n *c13Node, sf *c13SpecFields, e ast.Expr) string {
+func c13DivRole(n *c13Node, sf *c13SpecFields, e ast.Expr, full bool) string {
+	trim := func(name string) string {
+		if full {
+			return name
+		}
+		return strings.TrimPrefix(name, n.pkg.Types.Name()+".")
+	}
 	e = c13Core(n, e)
 	if arg, ok := c13IsLen(n, e); ok {
-		return "len(" + c13DivRole(n, sf, arg) + ")"
+		return "len(" + c13DivRole(n, sf, arg, full) + ")"
 	}
 	switch x := e.(type) {
 	case *ast.SelectorExpr:
 		if v := c13FieldOf(n, x); v != nil {
-			return strings.TrimPrefix(sf.name(v), n.pkg.Types.Name()+".")
+			return trim(sf.name(v))
 		}
 	case *ast.IndexExpr:
-		return c13DivRole(n, sf, x.X) + "[]"
+		return c13DivRole(n, sf, x.X, full) + "[]"
 	case *ast.Ident:
 		info := n.pkg.TypesInfo
 		if v, ok := info.Uses[x].(*types.Var); ok {
 			if v.Pkg() != nil && v.Parent() == v.Pkg().Scope() {
-				return v.Name()
+				return trim(v.Pkg().Name() + "." + v.Name())
 			}
 			return "local " + strings.ReplaceAll(v.Type().String(), Mod, "")
 		}
@@ -339,13 +429,13 @@ func c13DivRole(n *c13Node, sf *c13SpecFields, e ast.Expr) string {
 			switch t := y.(type) {
 			case *ast.SelectorExpr:
 				if v := c13FieldOf(n, t); v != nil {
-					set[strings.TrimPrefix(sf.name(v), n.pkg.Types.Name()+".")] = true
+					set[trim(sf.name(v))] = true
 					return false
 				}
 			case *ast.Ident:
 				if v, ok := info.Uses[t].(*types.Var); ok && !v.IsField() {
 					if v.Pkg() != nil && v.Parent() == v.Pkg().Scope() {
-						set[v.Name()] = true
+						set[trim(v.Pkg().Name()+"."+v.Name())] = true
 					} else if def := c13SingleDef(n, t); def != nil {
 						visit(def)
 					}
@@ -369,42 +459,104 @@ func c13ProveNonZero(c *core.Ctx, n *c13Node, s c13DivSite) (bool, *flow.State) 
 		return false, nil
 	}
 	f := c13Innermost(top, s.at)
-	core := c13Core(n, s.divisor)
-	if !contains(f.Body, core) && !contains(f.Body, s.divisor) {
-		return false, nil
-	}
-	target := core
-	isLen := false
-	if arg, ok := c13IsLen(n, core); ok {
-		isLen = true
-		_ = arg
-	}
-	r := f.Render(target)
-	keys := struct{ eq0, pos, lt1 string }{"eq:" + r + "==0", "lt:0<" + r, "lt:" + r + "<1"}
+	chain := c13CoreChain(n, s.divisor)
+	core := chain[len(chain)-1]
+	names := c13ParamVocab(f, c13AliasNames(n, f, chain))
+	_, isLen := c13IsLen(n, core)
 	unsigned := isLen
-	if tv, ok := f.Info.Types[target]; ok && tv.Type != nil {
+	if tv, ok := f.Info.Types[core]; ok && tv.Type != nil {
 		if b, ok := tv.Type.Underlying().(*types.Basic); ok && b.Info()&types.IsUnsigned != 0 {
 			unsigned = true
 		}
 	}
-	base := c13BaseObj(f, target)
+	base := c13BaseObj(f, core)
+	good := func(st *flow.State) bool {
+		positive, nonzero := false, false
+		for _, r := range names {
+			if st.Is("lt:0<"+r, flow.True) || st.Is("lt:"+r+"<1", flow.False) || (unsigned && st.Is("eq:"+r+"==0", flow.False)) {
+				positive = true
+			}
+			if st.Is("eq:"+r+"==0", flow.False) {
+				nonzero = true
+			}
+		}
+		nonzero = nonzero || positive
+		return s.intn && positive || !s.intn && nonzero
+	}
 	states, seen := c13StatesAt(c, f, s.at, flow.Config{
 		Track: func(k string) bool {
-			return k == keys.eq0 || k == keys.pos || k == keys.lt1 || strings.HasPrefix(k, "v:")
+			for _, r := range names {
+				if k == "eq:"+r+"==0" || k == "lt:0<"+r || k == "lt:"+r+"<1" {
+					return true
+				}
+			}
+			return strings.HasPrefix(k, "v:")
 		},
 		Pure: c13PureFor(f, base),
-	})
+	}, good)
 	if !seen {
 		return false, nil
 	}
 	for _, st := range states {
-		positive := st.Is(keys.pos, flow.True) || st.Is(keys.lt1, flow.False) || (unsigned && st.Is(keys.eq0, flow.False))
-		nonzero := positive || st.Is(keys.eq0, flow.False)
-		if s.intn && !positive || !s.intn && !nonzero {
+		if !good(st) {
 			return false, st
 		}
 	}
 	return true, nil
+}
+
+// c13CoreChain returns the expression and every intermediate of its resolution through
+// conversions and single-definition locals (last element = c13Core).
+func c13CoreChain(n *c13Node, e ast.Expr) []ast.Expr {
+	var out []ast.Expr
+	for i := 0; i < 4; i++ {
+		e = c13StripConv(n, e)
+		out = append(out, e)
+		id, ok := e.(*ast.Ident)
+		if !ok {
+			return out
+		}
+		def := c13SingleDef(n, id)
+		if def == nil {
+			return out
+		}
+		e = def
+	}
+	return out
+}
+
+// c13AliasNames renders the chain and every other local of f that is defined once as one of
+// its members: a test of any of them is a test of the operand (`n := len(xs); if n == 0`).
+func c13AliasNames(n *c13Node, f *flow.Func, chain []ast.Expr) []string {
+	set := map[string]bool{}
+	var names []string
+	for _, e := range chain {
+		r := f.Render(e)
+		if !set[r] {
+			set[r] = true
+			names = append(names, r)
+		}
+	}
+	seen := map[types.Object]bool{}
+	ast.Inspect(f.Body, func(x ast.Node) bool {
+		id, ok := x.(*ast.Ident)
+		if !ok {
+			return true
+		}
+		o := f.Info.Uses[id]
+		if o == nil || seen[o] {
+			return true
+		}
+		seen[o] = true
+		if def := c13SingleDef(n, id); def != nil && set[f.Render(c13StripConv(n, def))] {
+			if r := f.Render(id); !set[r] {
+				set[r] = true
+				names = append(names, r)
+			}
+		}
+		return true
+	})
+	return names
 }
 
 // ---------------------------------------------------------------------------------------
@@ -423,18 +575,50 @@ func c13CheckPushBeforeRate(c *core.Ctx, g *c13Graph, sf *c13SpecFields) (bool, 
 	}
 	n := 0
 	bad := ""
-	c13EachBody(c, func(f *flow.Func, name string) {
-		var rates []*ast.CallExpr
-		for _, call := range calls(f.Body, false) {
-			if isWin(f, call, "FailureRate", "SlowRate") {
-				rates = append(rates, call)
+	// the functions of the package are analysed from their entry points: a function that is
+	// called from the same package is interpreted in place in its callers (the Push may be in
+	// the caller and the rate computation in a helper, or the other way round)
+	pkg := c.Prog.Pkg(c13CB)
+	if pkg == nil {
+		return false, "package " + c13CB + " not loaded"
+	}
+	calledInPkg := map[types.Object]bool{}
+	var funcs []*flow.Func
+	for _, file := range pkg.Syntax {
+		for _, d := range file.Decls {
+			fd, ok := d.(*ast.FuncDecl)
+			if !ok || fd.Body == nil {
+				continue
+			}
+			f := flow.NewFunc(pkg, fd)
+			funcs = append(funcs, f)
+			for _, call := range calls(fd.Body, true) {
+				if fo, ok := f.Callee(call).(*types.Func); ok && fo.Pkg() == pkg.Types && declOf(pkg, fo) != nil && declOf(pkg, fo) != fd {
+					calledInPkg[fo.Origin()] = true
+				}
+			}
+		}
+	}
+	judged := map[*ast.CallExpr]bool{}
+	for _, f := range funcs {
+		fd := f.Node.(*ast.FuncDecl)
+		if calledInPkg[pkg.TypesInfo.Defs[fd.Name]] {
+			continue
+		}
+		var rates []reachCall
+		for _, h := range reach(f, 3) {
+			for _, call := range calls(h.Body, false) {
+				if isWin(h, call, "FailureRate", "SlowRate") {
+					rates = append(rates, reachCall{h, call})
+				}
 			}
 		}
 		if len(rates) == 0 {
-			return
+			continue
 		}
 		res := analyze(c, f, flow.Config{
-			Track: func(string) bool { return false },
+			Inline: inlineSamePkg(f),
+			Track:  func(string) bool { return false },
 			OnCall: func(st *flow.State, call *ast.CallExpr, callee types.Object, deferred bool) {
 				if isWin(f, call, "Push") {
 					st.Set("ev:pushed", flow.True)
@@ -442,17 +626,24 @@ func c13CheckPushBeforeRate(c *core.Ctx, g *c13Graph, sf *c13SpecFields) (bool, 
 			},
 		})
 		if res == nil {
-			return
+			continue
 		}
-		for _, call := range rates {
-			n++
-			for _, st := range res.At[call] {
+		for _, rc := range rates {
+			states := res.At[rc.Call]
+			if len(states) == 0 {
+				continue // not interpreted from this entry
+			}
+			if !judged[rc.Call] {
+				judged[rc.Call] = true
+				n++
+			}
+			for _, st := range states {
 				if !st.Is("ev:pushed", flow.True) && bad == "" {
-					bad = sprintf("%s computes a rate at %s on a path without a preceding window Push: total may be 0 and the division panics", name, pos(c, call))
+					bad = sprintf("%s computes a rate at %s on a path (entered through %s) without a preceding window Push: total may be 0 and the division panics", rc.Fn.Name, pos(c, rc.Call), declName(pkg, fd))
 				}
 			}
 		}
-	})
+	}
 	if n < 2 {
 		return false, sprintf("only %d FailureRate/SlowRate call sites found (expected >= 2)", n)
 	}
